@@ -1,0 +1,11 @@
+//! Verification-only re-exports (compiled only with `--cfg mmtk_verif`, see /verif/DESIGN.md).
+//! Add-only: nothing here changes behaviour; it only makes crate-private items reachable from
+//! the out-of-tree harness crate.
+
+/// Alignment arithmetic of the allocators (`util::alloc::allocator` is `pub(crate)`).
+pub mod allocator {
+    pub use crate::util::alloc::allocator::{
+        align_allocation, align_allocation_inner, align_allocation_no_fill,
+        get_maximum_aligned_size, get_maximum_aligned_size_inner,
+    };
+}
